@@ -235,7 +235,10 @@ LcaCaseLaws == (done /\ k > NF + 2 * NA) =>
      /\ [c |-> x, lo |-> 0, hi |-> exp.E] \in exp.acc[i]
      /\ exp.E = 0 => exp.acc[i] = { [c |-> x, lo |-> 0, hi |-> 0] }
      /\ ~(exp.acc_written[i] \subseteq exp.acc[i]) => (exp.lrecs[i].synonyms /\ exp.E > 0)
-     /\ \A c \in Node(tax) : (\E v \in 0..exp.E : LcaAccepts(tax, bag, exp.E, c, v)) <=> (\E a \in exp.acc[i] : a.c = c)
+     \* an acceptable error stays acceptable when it grows up to E (sampled): the exported intervals [lo, hi] say all
+     /\ \A c \in Node(tax), v \in {0, 1, exp.E \div 3, exp.E \div 2, exp.E - 1} \cap 0..(exp.E - 1) :
+           LcaAccepts(tax, bag, exp.E, c, v) => LcaAccepts(tax, bag, exp.E, c, v + 1)
+     /\ \A c \in Node(tax) : LcaAccepts(tax, bag, exp.E, c, exp.E) <=> (\E a \in exp.acc[i] : a.c = c)
 
 (* the verdict operators accept the expected output in any order inside a block, and refuse a line lost, doubled, *)
 (* or moved to another block                                                                                      *)
